@@ -233,6 +233,9 @@ func (t *treeRun) act(a TAct) {
 		time.Sleep(ms(a.Ms))
 	case "settle":
 		detsim.Settle()
+		detsim.HoldTime(true)
+		h.SeedMirrors() // strict replay starts at the first quiescent point after a subscriber exists
+		detsim.HoldTime(false)
 	case "check":
 		t.check()
 	case "release":
